@@ -1530,8 +1530,13 @@ class Executor:
                     self.oblige_state('panic', st, True, self.where(fr, bb), 'assert: ' + term[3])
                     continue
                 if good is not True:
-                    self.oblige_state('panic', st, b_not(good), self.where(fr, bb), 'assert: ' + term[3])
-                    st.add_guard(good)
+                    if self.prune_solver is not None and self.prune_mode in ('all', 'asserts') and not self.feasible(b_and(st.guard, b_not(good))):
+                        # the failing side is infeasible under the harness assumptions: obligation discharged here,
+                        # nothing is added to the path condition
+                        self.stats['asserts_discharged_by_pruning'] = self.stats.get('asserts_discharged_by_pruning', 0) + 1
+                    else:
+                        self.oblige_state('panic', st, b_not(good), self.where(fr, bb), 'assert: ' + term[3])
+                        st.add_guard(good)
                 goto(bb, ctx, term[4], st)
             elif kk == 'drop':
                 if not term[1][2]:
@@ -1658,11 +1663,14 @@ class Executor:
             return out
         if isinstance(val, Fork):
             out = []
-            cases = [(c, v) for c, v in val.cases if c is not False]
+            cases = [tuple(x) for x in val.cases if x[0] is not False]
             uid = next(self.branch_counter)
-            live = [(c, v) for c, v in cases if self.prune_solver is None or self.feasible(b_and(st2.guard, c))]
-            for i, (c, v) in enumerate(live):
+            live = [x for x in cases if self.prune_solver is None or self.feasible(b_and(st2.guard, x[0]))]
+            for i, x in enumerate(live):
+                c, v = x[0], x[1]
                 s_i = st2.fork(GC(c, uid, i, len(cases)) if len(cases) > 1 else c)
+                if len(x) > 2 and x[2] is not None:
+                    x[2](s_i)          # per-case state update requested by the model
                 if dest is not None and ret is not None:
                     self.write_place(fr, dest, s_i, v)
                 out.append(s_i)
